@@ -203,7 +203,7 @@ CHECKS = {
         technique="exhaustive enumeration of 1-mutation neighbourhoods, prefixes, token soups, short character strings and pumping families; deterministic step-budget (sys.monitoring) termination oracle",
         text="All single-token mutants (delete/duplicate/swap, and insertion of each of 43 menu tokens for the simplest seeds) and all "
              "prefixes of G_core k<=1 statements and an identity.sql slice, all token soups of length <= 3 over a 43-token menu, all "
-             "character strings of length <= 3 over a 34-character alphabet and 25 pumping families are tokenized and parsed under the "
+             "character strings of length <= 3 over a 36-character alphabet and 25 pumping families are tokenized and parsed under the "
              "error levels, and every returned tree is generated in its own and the base dialect. The outcome must be a return or a "
              "SqlglotError; work is measured by a deterministic step counter (calls + loop back-edges in sqlglot code) against a fixed "
              "quadratic budget, so a non-terminating loop is reported deterministically, and pumping families may at most x5 their "
